@@ -4,24 +4,29 @@
    MODEL + TIE (complete): Src/Compile4.v and VM/ValueVM4.v are tied at level 4 of checks/parts/compiletie.py on
    generated programs of `prog_in_F4` (F5 + closures).
    PROOF: compile_program_correct_F4_partial (below) — whole programs with nested functions and closures,
-   for the fragment `Compile4.prog_in_P 5` = F2 + calls of top-level functions by name + CLOSURES:
+   for the fragment `Compile4.prog_in_P 5` = F5 (F2 + calls of top-level functions by name, self tail calls, catch
+   clauses) + CLOSURES:
      runs of sibling function items (mutually visible, the ALLOC / REWRITE knot), function expressions, captured
      parameters / let / var / nested functions at any depth (ID_GLOBAL), assignment through a capture, function
      values bound, passed, returned and called after the definer returned, calls whose callee is any expression
-     that yields a function value; faults inside closures (RETHROW chain).
+     that yields a function value, nested functions that call themselves (also in tail position) or each other;
+     faults inside closures (RETHROW chain).
    By one induction on the evaluator's fuel over ValueVM4 / Compile4 (Src/CompileCorrect4.v: expr / items /
    while / do-while specs for every function context, body_spec quantified over (kind, fd, closure environment,
    vector) with the relation of Src/CompileCorrect4Rel.v: env_match with captured slots, fun_rel, the ghost list
    of vectors) and the layout of `all_funcs` + the entry stub (Src/CompileCorrect4Prog.v).
    NOT in the partial fragment (what is missing for the tie's full prog_in_F4), precisely:
-     (a) self calls in TAIL position (expr_last_call_emit) and CATCH CLAUSES: func_in_P demands no_catch and
-         no_self_tail_fd; the tail / handlers machinery of Src/CompileCorrect3.v (tcase_*, titems_*, handlers_run,
-         clause_block: about 900 lines) is not ported to ValueVM4 yet — mechanical (gp is preserved by CLEAR_STACK);
-     (b) BY-VALUE COPIES of function objects: the name of a top-level function used as a VALUE (it may only be
-         called), and the name of the running nested function inside its own body (COPYGLOB; ID_FUNC_ADDR: direct
-         recursion of a nested function; mutual recursion through sibling slots IS covered): the machine makes a new
-         function object where the evaluator returns the one cell; needs "a is a copy of the image of c" in the
-         value relation (and the evaluator invariant that the cell f's environment binds f to holds f's closure);
+     (a) — nothing: self calls in TAIL position (top-level and nested: tcase_ECall_top / tcase_ECall_self, frame
+         and — for a nested function — vector reused) and CATCH CLAUSES (handlers_run over ValueVM4: CLEAR_STACK keeps
+         gp, the clause blocks see the parameters and the captured names) are covered, with the side condition of
+         F5 (a function WITH catch clauses has no self call in tail position);
+     (b) BY-VALUE COPIES of function objects used as VALUES: the name of a top-level function (it may only be
+         called), and the name of the running nested function inside its own body other than as the callee of a
+         call (a direct self call `f(…)` of a nested function — COPYGLOB; ID_FUNC_ADDR f; CALL — IS covered:
+         case_ECall_self, with the ghost list of recorded closures `mf` of the morphism: a recorded cell holds
+         its closure or an int, and a named nested function's environment binds its name to its own cell); the
+         machine makes a new function object where the evaluator returns the one cell: a value relation "a is a
+         copy of the image of c" is needed for these to flow into slots, vectors and results;
      (c) the right-hand side of an assignment must be `int_shaped` (Src/CompileCorrect4Shape.v proves that such an
          expression yields an int cell: no typing hypothesis is needed; `x = y + 0` for `x = y`);
      (d) bound names: a block's function run does not shadow a name in scope (run_ok), nested functions are not
@@ -252,4 +257,71 @@ Proof. vm_compute. reflexivity. Qed.
 Example ex4_runs :
   run_vm ex4 3000 [5] = VRet 28 [16; 20; 24] /\
   run_program 300 ex4 [5] = OResult (CInt 28) [16; 20; 24].
+Proof. vm_compute. split; reflexivity. Qed.
+
+(* a nested function that calls itself and reads a captured let:
+     func main(x : int) -> int
+     { let base = x * 2; func fact(n : int) -> int { (n <= 0) ? base : (n * fact(n - 1)) }; fact(3) + 0 } *)
+Definition fact6 : fdef := FDef 3%N [(4%N, false, TInt)] TInt
+  [IExpr (ECond (EBin Le (EVar 4%N) (EInt 0)) (EVar 2%N)
+                (EBin Mul (EVar 4%N) (ECall (EVar 3%N) [EBin Sub (EVar 4%N) (EInt 1)])))] [] None.
+Definition main6 : fdef := FDef 0%N [(1%N, false, TInt)] TInt
+  [ILet 2%N (EBin Mul (EVar 1%N) (EInt 2)); IFunc fact6;
+   IExpr (EBin Add (ECall (EVar 3%N) [EInt 3]) (EInt 0))] [] None.
+Definition ex6 : program := {| p_recs := []; p_funcs := [main6]; p_main := 0%N |}.
+
+Example ex6_in_P : prog_in_P 5 ex6 = true.
+Proof. vm_compute. reflexivity. Qed.
+
+Example ex6_runs :
+  run_vm ex6 3000 [1] = VRet 12 [] /\ run_program 300 ex6 [1] = OResult (CInt 12) [].
+Proof. vm_compute. split; reflexivity. Qed.
+
+(* the theorem applied: for every fuel on which the evaluator answers, the machine answers the same *)
+Example ex6_correct : forall fuel z printed, run_program fuel ex6 [1] = OResult (CInt z) printed ->
+  exists k, run_vm ex6 k [1] = VRet z printed.
+Proof.
+  intros fuel z printed H. pose proof (compile_program_correct_F4_partial fuel ex6 [1] ex6_in_P) as T.
+  rewrite H in T. destruct (T eq_refl) as (k & z' & Hk & Hv). simpl in Hv. subst z'. exists k. exact Hk.
+Qed.
+
+(* catch clauses in a closure that captures: 
+     func mk(a : int) -> (int) -> int
+     { func dv(b : int) -> int { (a * 2) / b } catch (division_by_zero) { print(a); a + 100 }; dv }
+     func main(x : int) -> int { let f = mk(x); f(2) + f(0) } *)
+Definition dv7 : fdef := FDef 3%N [(4%N, false, TInt)] TInt
+  [IExpr (EBin Div (EBin Mul (EVar 2%N) (EInt 2)) (EVar 4%N))]
+  [(ExDivision, [IExpr (EPrint (EVar 2%N)); IExpr (EBin Add (EVar 2%N) (EInt 100))])] None.
+Definition mk7 : fdef := FDef 1%N [(2%N, false, TInt)] (TFun [TInt] TInt)
+  [IFunc dv7; IExpr (EVar 3%N)] [] None.
+Definition main7 : fdef := FDef 0%N [(5%N, false, TInt)] TInt
+  [ILet 6%N (ECall (EVar 1%N) [EVar 5%N]);
+   IExpr (EBin Add (ECall (EVar 6%N) [EInt 2]) (ECall (EVar 6%N) [EInt 0]))] [] None.
+Definition ex7 : program := {| p_recs := []; p_funcs := [mk7; main7]; p_main := 0%N |}.
+
+Example ex7_in_P : prog_in_P 5 ex7 = true.
+Proof. vm_compute. reflexivity. Qed.
+
+(* on 7: f(2) = 14 / 2 = 7; f(0) faults inside the closure, its clause prints the captured a and gives 107 *)
+Example ex7_runs :
+  run_vm ex7 3000 [7] = VRet 114 [7] /\ run_program 300 ex7 [7] = OResult (CInt 114) [7].
+Proof. vm_compute. split; reflexivity. Qed.
+
+(* a nested function with a self call in TAIL position that assigns a captured var:
+     func main(x : int) -> int
+     { var acc = x - x; func loop(n : int) -> int { (n <= 0) ? acc : { acc = acc + n; loop(n - 1) } }; loop(x) + 0 } *)
+Definition loop8 : fdef := FDef 3%N [(4%N, false, TInt)] TInt
+  [IExpr (ECond (EBin Le (EVar 4%N) (EInt 0)) (EVar 2%N)
+                (EBlock [IExpr (EAssign (EVar 2%N) (EBin Add (EVar 2%N) (EVar 4%N)));
+                         IExpr (ECall (EVar 3%N) [EBin Sub (EVar 4%N) (EInt 1)])]))] [] None.
+Definition main8 : fdef := FDef 0%N [(1%N, false, TInt)] TInt
+  [IVar 2%N (EBin Sub (EVar 1%N) (EVar 1%N)); IFunc loop8;
+   IExpr (EBin Add (ECall (EVar 3%N) [EVar 1%N]) (EInt 0))] [] None.
+Definition ex8 : program := {| p_recs := []; p_funcs := [main8]; p_main := 0%N |}.
+
+Example ex8_in_P : prog_in_P 5 ex8 = true /\ no_self_tail_fd loop8 = false.
+Proof. vm_compute. split; reflexivity. Qed.
+
+Example ex8_runs :
+  run_vm ex8 3000 [10] = VRet 55 [] /\ run_program 300 ex8 [10] = OResult (CInt 55) [].
 Proof. vm_compute. split; reflexivity. Qed.
